@@ -106,6 +106,14 @@ def gen_histories(ctx, prop):
     sim = ctx.tlc("TrackerSim", "TrackerSim.cfg", workers=1, timeout=900, simulate="num=%d" % nsim,
                   depth=depth, overrides=simov, name="sim")
     simh = hist_lines(ctx, sim)
+    # deep histories: few sessions, long hold queues and long emitted streams
+    deepov = dict(simov)
+    deepov.update({"Pids": "{1, 2}", "Sessions": '{"s1", "s2"}', "AuditSessions": '{"s1", "s2"}',
+                   "MaxEv": "160" if ctx.quick else "400", "MaxLogins": "4" if deepov.get("MaxRank") == "2" else "2",
+                   "WithBad": "FALSE"})
+    deep = ctx.tlc("TrackerSim", "TrackerSim.cfg", workers=1, timeout=900, simulate="num=%d" % (16 if ctx.quick else 120),
+                   depth=1200 if ctx.quick else 3000, overrides=deepov, name="sim-deep")
+    simh += hist_lines(ctx, deep)
     if len(uniq) < 10 or len(simh) < nsim // 2:
         raise Infra("history generation produced too little (%d edge, %d sim)" % (len(uniq), len(simh)))
     return uniq, simh, ex, sim
